@@ -258,6 +258,36 @@ META["C18"] = {
     "require": {"quick": {"dual_form_operators_covered": 15}, "thorough": {"dual_form_operators_covered": 15}},
 }
 
+META["C10"] = {
+    "title": "Thread-safe variants serialise delivery and cannot deadlock",
+    "rule": "cases = (scenario family, 2-3 real OS threads each with a script of 1-4 of next / complete / error / subscribe / unsubscribe, baton schedule). Families: SubjectThreads, BehaviorSubject<_, SubjectThreads>, merge_threads, zip_threads, combine_latest_threads, with_latest_from_threads, take_until_threads, skip_until_threads, sample_threads, merge_all_threads (outer thread + hot inner threads, limit 1..k), finalize_threads, share_threads, observe_on_threads and delay_threads with 1-2 managed worker threads running the scheduled tasks, and a three-stage merge+finalize+take_until pipeline. The baton scheduler lets one managed thread run at a time; every MutArc lock acquisition (hook), every probe callback and every worker iteration is a scheduling point where a seeded uniform or PCT (d=1..3) strategy picks who continues. Oracles: a probe never entered on two threads at once, grammar per probe, one common order of shared items among subscribers of one subject/share, no logical deadlock (every unfinished thread blocked on a cell probed as held), no panic, every scripted call returned. Non-trivial: the schedule had at least one context switch; distinct = hash(scenario, schedule trace).",
+    "assumptions": COMMON_ASSUME + [
+        "interleavings are sampled at lock-acquisition granularity (plus the explicit points); lock releases and code between two acquisitions are not separate scheduling points",
+        "callers do not re-enter the same pipeline from inside a callback (excluded by the statement)",
+        "a schedule that exceeds the step bound or the 30 s wall-clock watchdog is reported INCONCLUSIVE, never as a violation; a deadlock is only reported with its logical witness (thread -> cell it waits for)",
+        "Miri many-seeds runs (thorough tier) add Miri's own preemptive scheduler as a second interleaving source and report deadlock / data race / UB exactly",
+    ],
+    "technique": "runtime monitoring: deterministic baton scheduling of real OS threads at every shared-cell lock acquisition (verif_hooks lock hook with try_lock probe), overlap/order/deadlock/panic monitors on the recording probes; Miri interpreter for the thorough tier",
+    "level_text": "Exploration: sampled lock-level interleavings (uniform + PCT) of 15 scenario families; logical deadlock detection is exact on every schedule run.",
+    "level_note": "Trusted: baton scheduler (harness/src/conc.rs), the lock hook placement before MutArc::lock, probes.",
+    "design_ref": "DESIGN.md §5 C10",
+    "require": {"quick": {"thread_scenarios_covered": 15, "distinct_thread_schedules": 8000}, "thorough": {"thread_scenarios_covered": 15}},
+    "watchdog_s": {"quick": 600, "thorough": 7200},
+}
+
+META["C12"] = {
+    "title": "BehaviorSubject hands every new subscriber the current value first",
+    "rule": "sequential part: random histories of length <= 10 quick / <= 24 thorough over next / next_by / clone / subscribe / unsubscribe / peek / complete / error on BehaviorSubject over Subject and over SubjectThreads, <= 3 subscribers, compared step by step with a model (first item of a new subscriber = most recent value passed to any clone, peek() = that value, next_by(f) emits f(that value), every later item exactly once); non-trivial: a subscriber joined after at least one next. Thread part: 2-3 producer threads and late subscribers on BehaviorSubject<_, SubjectThreads> under the baton scheduler: at quiescence peek() must equal the last item of the order observed by the always-present subscriber, and a late subscriber's sequence must be [v] followed by the suffix of that order that follows v. distinct = hash(history) / hash(scenario, schedule).",
+    "assumptions": COMMON_ASSUME + [
+        "after a terminal, a new subscriber may receive the stored value alone or followed by nothing else; the stored value follows the statement (most recent value passed to any clone)",
+    ],
+    "technique": "runtime monitoring: recording probes and peek() samples on the real BehaviorSubject against a sequential model; baton-scheduled producer/late-subscriber races with a common-order oracle",
+    "level_text": "Exploration over sampled histories and lock-level schedules.",
+    "level_note": "Trusted: model in harness/src/props/c12.rs, baton scheduler.",
+    "design_ref": "DESIGN.md §5 C12",
+    "require": {"quick": {"subject_types_covered": 2, "thread_schedules": 4000}, "thorough": {"subject_types_covered": 2}},
+}
+
 
 # properties without a check yet are listed here with the reason; the list shrinks as checks land
 ALL_IDS = ['C01', 'C02', 'C03', 'C04', 'C05', 'C06', 'C07', 'C08', 'C09', 'C10', 'C11', 'C12', 'C13', 'C14', 'C15', 'C16', 'C17', 'C18', 'C19', 'C20']
